@@ -6,6 +6,7 @@
 //!   the frame 07 followed by the request's frames; `cap` installs a PUSH capture socket drained by a PULL.
 //!   req C F;F   -> q=ok | q=err:<class>
 //!   recv C      -> r=ok:F;F | r=err:<class> | r=timeout
+//!   reconn C    -> c=ok | c=err:<class>    client C goes away (socket dropped) and comes back under the same identity
 use crate::sock::err_class;
 use crate::util::*;
 use std::time::Duration;
@@ -97,12 +98,15 @@ async fn scenario(head: Vec<String>, ops: Vec<Vec<String>>) -> Vec<String> {
         }));
     }
     // clients
-    let mut clients: Vec<ReqSocket> = Vec::new();
-    for c in 0..nc {
+    fn client(c: usize) -> ReqSocket {
         let mut o = SocketOptions::default();
         let id: Vec<u8> = format!("C{}", c).into_bytes().repeat(if c % 2 == 0 { 1 } else { 8 });
         o.peer_identity(zeromq::util::PeerIdentity::try_from(id).unwrap());
-        let mut s = ReqSocket::with_options(o);
+        ReqSocket::with_options(o)
+    }
+    let mut clients: Vec<ReqSocket> = Vec::new();
+    for c in 0..nc {
+        let mut s = client(c);
         if let Err(e) = s.connect(&fe.to_string()).await {
             return vec![format!("setup=err:client:{}", err_class(&e))];
         }
@@ -142,6 +146,18 @@ async fn scenario(head: Vec<String>, ops: Vec<Vec<String>>) -> Vec<String> {
                     Ok(Err(e)) => out.push(format!("r=err:{}", err_class(&e))),
                     Err(_) => out.push("r=timeout".into()),
                 }
+            }
+            "reconn" => {
+                let c: usize = t[1].parse().unwrap();
+                let old = std::mem::replace(&mut clients[c], client(c));
+                drop(old);
+                tokio::time::sleep(Duration::from_millis(100)).await;
+                match tokio::time::timeout(WAIT, clients[c].connect(&fe.to_string())).await {
+                    Ok(Ok(_)) => out.push("c=ok".into()),
+                    Ok(Err(e)) => out.push(format!("c=err:{}", err_class(&e))),
+                    Err(_) => out.push("c=timeout".into()),
+                }
+                tokio::time::sleep(Duration::from_millis(150)).await;
             }
             _ => out.push(format!("unknown-op:{}", t[0])),
         }
